@@ -99,7 +99,7 @@ CLAIMED = {
 EXTRA = {
  "C01": "Added: C01_one_reply (exactly one reply; a non-Success reply is HTTP 500 or one of four non-Success status codes), C01_failed_response_content (from the builder source: a failed response has no assertion content).",
  "C02": "Added: the service-provider record of every case is checked against the registered metadata document (sprec_of_doc: model of Unmarshal + projection; consumer services in document order); C02_accepted_record (an accepted request hands exactly one record to the storage: non-empty registered consumer URL, supported binding, the request's own RelayState / ID) and C02_end_to_end (a callback for a record storing those values delivers to that URL by that binding).",
- "C03": "Added: C03_built_response / C03_built_attributes (the response document's fields, from the builder programs go2v translates from response.go / attributes.go), C03_delivery_from_source, C03_schema (struct tags vs the SAML schemas). The C18 correspondence rebuilds every real reply from those builders.",
+ "C03": "Added: C03_built_response / C03_built_attributes (the response document's fields, from the builder programs go2v translates from response.go / attributes.go), C03_delivery_from_source, C03_schema (struct tags vs the SAML schemas). The C18 correspondence rebuilds every real reply from those builders. C03_built_attributes_any_custom / C03_attribute_statement_any_custom: by induction over the custom attributes, GetSAML and the attribute statement of the assertion in the successful Response are exactly the non-empty standard attributes followed by one attribute per custom attribute, for any number of them.",
  "C04": "Added: C04_redirect_url (the octets a verifier rebuilds from consumer URL + separator + query are the signed ones unless the consumer URL's own query names a signed parameter) and its refutation C04_redirect_url_refuted (F-04d, reproduced on the implementation, known), C04_signature_kind_from_source.",
  "C05": "Added: C05_keyinfo_registered (a KeyInfo the signature carries must contain a certificate registered for the provider).",
  "C09": "Added: every SSO request of the structural-edit streams carries its document tree; Coq checks that the model of Unmarshal + projection (authn_of_doc) yields the abstract request the harness derived from the handler's own decoder.",
